@@ -3,14 +3,14 @@ import itertools, threading
 import core, gen, frames as F
 from props.base import PropBase
 
-KINDS = ["refuse", "close", "frames", "partial", "junk", "long"]
+KINDS = ["refuse", "close", "frames", "partial", "junk", "long", "reset0"]
 
 class C18(PropBase):
     id = "C18"
     corr_fields = []
     lean_modules = ["SqModel.Props.C18"]
     extractors = ["tcp"]
-    rule = ("fault sequences over {refuse, accept+close, accept+frames+close, accept+partial line+reset, accept+junk bytes+close, accept+frames+6.5 s up+close} "
+    rule = ("fault sequences over {refuse, accept+close, accept+frames+close, accept+partial line+reset, accept+junk bytes+close, accept+frames+6.5 s up+close, accept+immediate reset} "
             "of length <= 2 (quick: 10 sequences, thorough: all 42 plus 40 of length 3), each followed by a healthy connection, "
             "played by a scripted loopback peer against the real connect_and_read_tcp loop (real 5 s pauses, sequences run in "
             "parallel processes); a first connection teaches an aircraft before the faults; every second sequence with the -l error log, every third with the -D downlink log; sequences with the long-lived connection run with delete_after = 5 s, shorter than that connection, the others with delete_after 600 / 0 / 1 / 2^62 and refresh intervals -1 / 0 / 3 / 2^62. Observed: the reader reconnects after "
@@ -39,6 +39,8 @@ class C18(PropBase):
             elif k == "long":      # a connection that stays up longer than the retry pause before the peer closes it
                 a = base + 11 + (j % 3)
                 steps.append("data:%s:eof:6500" % (F.df11(5, a, 0) + "\n").encode().hex()); expect.add(a)
+            elif k == "reset0":    # accepted and reset at once, before a single byte was sent (a forwarder whose far end is down)
+                steps.append("data::reset")
             elif k == "junk":
                 steps.append("data:%s:eof" % (b"\x00\xff garbage \x80\n" + bytes(range(128, 200)) + b"\nGGGG").hex())
         healthy = base + 15
@@ -50,7 +52,7 @@ class C18(PropBase):
         return ";".join(steps), expect
 
     def explore(self, rep, run, rng, tier, driver_ok):
-        seqs = [("refuse",), ("close",), ("frames",), ("partial",), ("junk",), ("long",), ("refuse", "partial"), ("partial", "refuse"), ("refuse", "refuse"), ("long", "partial")]
+        seqs = [("refuse",), ("close",), ("frames",), ("partial",), ("junk",), ("long",), ("refuse", "partial"), ("partial", "refuse"), ("refuse", "refuse"), ("long", "partial"), ("reset0",), ("reset0", "refuse")]
         if tier == "thorough":
             seqs = [()] + [(k,) for k in KINDS] + list(itertools.product(KINDS, repeat=2)) + rng.sample(list(itertools.product(KINDS, repeat=3)), 40)
         results = {}
